@@ -38,27 +38,28 @@ def errName : Err → String
 trip, gives the same state, and the value itself is unchanged. -/
 def reuse : String := " again=same json=same mut=false"
 
-/-- `gen <balance prefix> <height prefix> <timestamp prefix> <fee prefix> <p0,..,p4> <addr:bal>*`
+/-- `gen <balance prefix> <height prefix> <timestamp prefix> <fee prefix> <p0,..,p4> <sw> <q0,..,q4> <addr:bal>*`
+(min unit prices `p` for rule time < `sw`, `q` from `sw` on)
 → `ok hdr=<height>:<timestamp>:<numTxs> rootok=true n=<#keys> <key>=<value>…` (keys sorted)
 or `err <kind>`. The model's root is the abstract function of the content, so `rootok` (header
 root = root of the committed content) is `true` by construction — theorem
 `genesis_root_is_header_root`; the Go side computes it with two independent merkledbs. -/
 def step (_ : Unit) (ws : List String) : Unit × String :=
   match ws with
-  | "gen" :: bp :: hp :: tp :: fp :: prices :: allocs =>
-    match parseHex bp, parseHex hp, parseHex tp, parseHex fp, parsePrices prices,
-          allSome (allocs.map parseAlloc) with
-    | some bp, some hp, some tp, some fp, some prices, some allocs =>
-      let c : Config := { balancePrefix := bp, heightPrefix := hp, timestampPrefix := tp,
-                          feePrefix := fp, minUnitPrice := prices }
-      match genesisCommit (fun _ => 0) c allocs with
+  | "gen" :: bp :: hp :: tp :: fp :: prices :: sw :: prices2 :: allocs =>
+    match parseHex bp, parseHex hp, parseHex tp, parseHex fp, parsePrices prices, sw.toInt?,
+          parsePrices prices2, allSome (allocs.map parseAlloc) with
+    | some bp, some hp, some tp, some fp, some prices, some sw, some prices2, some allocs =>
+      -- the rule factory of the run: min prices `prices` before time `sw`, `prices2` from then on
+      let rf : PriceRules := fun t => if t < sw then prices else prices2
+      match genesisCommitRF (fun _ => 0) bp hp tp fp rf allocs with
       | .error e => ((), "err " ++ errName e ++ reuse)
       | .ok (m, hdr) =>
         let ks := sortKeys (keysOf m)
         let ents := ks.map fun k => toHex k ++ "=" ++ toHex ((get m k).getD [])
         ((), s!"ok hdr={hdr.height}:{hdr.timestamp}:{hdr.numTxs} rootok=true n={ks.length} "
               ++ " ".intercalate ents ++ reuse)
-    | _, _, _, _, _, _ => ((), "bad-op")
+    | _, _, _, _, _, _, _, _ => ((), "bad-op")
   | _ => ((), "bad-op")
 
 def machine : Machine := { σ := Unit, init := (), step := step }
